@@ -3,9 +3,14 @@
 // Contracts for package common, read by /verif/gocv (comment-only file; see /verif/DESIGN.md).
 package common
 
-//@ spec le16(b []byte, p uint64) uint16 = uint16(b[p]) | uint16(b[p+1])<<8
-//@ spec le32(b []byte, p uint64) uint32 = uint32(b[p]) | uint32(b[p+1])<<8 | uint32(b[p+2])<<16 | uint32(b[p+3])<<24
-//@ spec le64(b []byte, p uint64) uint64 = uint64(le32(b, p)) | uint64(le32(b, p+4))<<32
+// array-level definitions (shared by the zero-copy codec, which reads slices, and the streaming
+// codec, whose input is a ghost byte stream) and their slice-level wrappers
+//@ spec le16a(a ArrU64U8, p uint64) uint16 = uint16(a[p]) | uint16(a[p+1])<<8
+//@ spec le32a(a ArrU64U8, p uint64) uint32 = uint32(a[p]) | uint32(a[p+1])<<8 | uint32(a[p+2])<<16 | uint32(a[p+3])<<24
+//@ spec le64a(a ArrU64U8, p uint64) uint64 = uint64(le32a(a, p)) | uint64(le32a(a, p+4))<<32
+//@ spec le16(b []byte, p uint64) uint16 = le16a(arr(b), off(b)+p)
+//@ spec le32(b []byte, p uint64) uint32 = le32a(arr(b), off(b)+p)
+//@ spec le64(b []byte, p uint64) uint64 = le64a(arr(b), off(b)+p)
 //@ spec remaining(self *ZeroCopySource) uint64 = uint64(len(self.s)) - self.off
 
 //@ invariant-of *ZeroCopySource :: self.off <= uint64(len(self.s))
@@ -109,9 +114,12 @@ package common
 
 // ---- variable-length integers --------------------------------------------------------------
 //@ spec varlen(v uint64) uint64 = ite(v < 0xFD, 1, ite(v <= 0xFFFF, 3, ite(v <= 0xFFFFFFFF, 5, 9)))
-//@ spec isVarUintAt(b []byte, p uint64, v uint64) bool = ite(v < 0xFD, b[p] == uint8(v), ite(v <= 0xFFFF, b[p] == 0xFD && le16(b, p+1) == uint16(v), ite(v <= 0xFFFFFFFF, b[p] == 0xFE && le32(b, p+1) == uint32(v), b[p] == 0xFF && le64(b, p+1) == v)))
-//@ spec varsizeAt(b []byte, p uint64) uint64 = ite(b[p] < 0xFD, 1, ite(b[p] == 0xFD, 3, ite(b[p] == 0xFE, 5, 9)))
-//@ spec varuintAt(b []byte, p uint64) uint64 = ite(b[p] < 0xFD, uint64(b[p]), ite(b[p] == 0xFD, uint64(le16(b, p+1)), ite(b[p] == 0xFE, uint64(le32(b, p+1)), le64(b, p+1))))
+//@ spec isVarUintAtA(a ArrU64U8, p uint64, v uint64) bool = ite(v < 0xFD, a[p] == uint8(v), ite(v <= 0xFFFF, a[p] == 0xFD && le16a(a, p+1) == uint16(v), ite(v <= 0xFFFFFFFF, a[p] == 0xFE && le32a(a, p+1) == uint32(v), a[p] == 0xFF && le64a(a, p+1) == v)))
+//@ spec varsizeAtA(a ArrU64U8, p uint64) uint64 = ite(a[p] < 0xFD, 1, ite(a[p] == 0xFD, 3, ite(a[p] == 0xFE, 5, 9)))
+//@ spec varuintAtA(a ArrU64U8, p uint64) uint64 = ite(a[p] < 0xFD, uint64(a[p]), ite(a[p] == 0xFD, uint64(le16a(a, p+1)), ite(a[p] == 0xFE, uint64(le32a(a, p+1)), le64a(a, p+1))))
+//@ spec isVarUintAt(b []byte, p uint64, v uint64) bool = isVarUintAtA(arr(b), off(b)+p, v)
+//@ spec varsizeAt(b []byte, p uint64) uint64 = varsizeAtA(arr(b), off(b)+p)
+//@ spec varuintAt(b []byte, p uint64) uint64 = varuintAtA(arr(b), off(b)+p)
 
 //@ lemma rt_u16(b []byte, p uint64, v uint16): property=C01 b[p] == uint8(v) && b[p+1] == uint8(v>>8) ==> le16(b, p) == v
 //@ lemma rt_u32(b []byte, p uint64, v uint32): property=C01 b[p] == uint8(v) && b[p+1] == uint8(v>>8) && b[p+2] == uint8(v>>16) && b[p+3] == uint8(v>>24) ==> le32(b, p) == v
